@@ -1,10 +1,12 @@
-import CJ.Model.Ingest
+import CJ.Model.IngestText
 import CJ.Drv.Util
 /-! Driver for the ingest model (C07).
 
 `c07|<cfg>|<wire>|<wire>|…` — the messages are ingested in order into one empty registry; the wire `D`
 repeats the previous message.
-* cfg: `<enableV4>,<enableV6>,<shareOverAPI>,<transports sep ' '>,<blocklist: hex/ones sep ' '>`
+* cfg: `<enableV4>,<enableV6>,<shareOverAPI>,<transports sep ' '>,<blocklist sep ' '>`; the blocklist is either all
+  `hex/ones` (parsed networks) or all `t<hex of the UTF-8 text>` (the configured strings of `phantom_blocklist`, parsed by
+  the model: `CJ.IngestText.phantomBlocklist`; a list the model refuses is answered `bad-op` — the station would not start)
 * wire: `G` (undecodable) or
   `M,<payload>,<v4sup>,<v6sup>,<registrant>,<source>,<transport>,<libver>,<prescanned>,<rr>,<oracles>,<disableOverrides>,<rrOracles>` with
   registrant = `-` (absent) | `e` (present, empty) | hex; rr = `-` | `<dport>:<ipv4>:<ipv6>:<tparams 0/1>` (each `-` if absent);
@@ -70,12 +72,26 @@ def parseNet (s : String) : Option (Bytes × Nat) :=
   | [h, n] => do some (← parseHex h, ← n.toNat?)
   | _ => none
 
-def parseCfg (s : String) : Option Cfg :=
-  match s.splitOn "," with
+/-- `t<hex of the UTF-8 bytes>`: a configured string -/
+def parseText (s : String) : Option String :=
+  match s.toList with
+  | 't' :: h => do
+    let b ← parseHex (String.ofList h)
+    String.fromUTF8? (ByteArray.mk b.toArray)
+  | _ => none
+
+def parseBlocklist (bl : String) : Option (List (Bytes × Nat)) :=
+  let fs := fields bl " "
+  if fs.any (·.startsWith "t") then do CJ.IngestText.phantomBlocklist (← fs.mapM parseText)
+  else fs.mapM parseNet
+
+def parseCfgFields : List String → Option Cfg
   | [e4, e6, sh, trs, bl] => do
     some { enableV4 := ← parseBool e4, enableV6 := ← parseBool e6, shareOverAPI := ← parseBool sh,
-           transports := ← parseNatList trs " ", blocklist := ← (fields bl " ").mapM parseNet }
+           transports := ← parseNatList trs " ", blocklist := ← parseBlocklist bl }
   | _ => none
+
+def parseCfg (s : String) : Option Cfg := parseCfgFields (s.splitOn ",")
 
 def showBuild : Except BuildErr Reg → String
   | .ok _ => "ok"
